@@ -56,6 +56,7 @@ def run(ctx, tier):
                         "through the basic URL parser drop ASCII tab/newline first"),
                  ("T8", "(shared with C14.M6) 'protocol matches a special scheme', which selects the hierarchical or the opaque "
                         "pathname canonicaliser, enumerates exactly the special schemes in both of its arms"),
+                 ("T9", "the port canonicaliser tests the port state's limits (five significant digits, 65535)"),
                  ("T5", "each URLPattern canonicaliser scans and encodes with the one percent-encode set of its component")):
         ctx.rule(r, t)
     cfgs = C.configs_for(tier, thorough=["release", "devchecks", "amalgamated"])
@@ -68,6 +69,8 @@ def run(ctx, tier):
         check_value_entry(ctx, fxs[name])
         from rules import c14
         c14.check_special_scheme_twins(ctx, fxs[name], "T8")
+        from rules import c10_limits
+        c10_limits.check(ctx, fxs[name], "T9", table=c10_limits.PORT_LIMITS_PATTERN, floor=1, contains=True, what="the port state's")
 
 
 # canonicalisers the Standard defines as "basic URL parser with <state> as state override": the parser removes ASCII tab
